@@ -55,12 +55,14 @@ SHAPES = {
     'rules-old-absdata':  {'layout': 'old', 'rules': 'rules', 'absdata': True},
     'csv-old-absdata':    {'layout': 'old', 'rules': 'csv', 'absdata': True},
     # the config folder has another name (tally up <dir> / TALLY_CONFIG accept any folder): only `up <dir> --migrate` applies to it
+    # a budget that has been migrated back and forth many times: .bak, .bak.1 ... .bak.10 all exist (each with its own content)
+    'csv-old-manybaks':   {'layout': 'old', 'rules': 'csv', 'manybaks': 11, 'only': ('migrate', 'init')},
     'csv-old-oddname':    {'layout': 'old', 'rules': 'csv', 'cfg_name': 'cfg-2025', 'only': ('migrate',)},
 }
 COMMANDS = ['migrate', 'init', 'update']
 QUICK = [('csv-old', 'migrate'), ('csv-old-bak', 'init'), ('csv-old-output', 'update'), ('csv-new', 'migrate'), ('csv-old-commented-key', 'migrate'),
          ('rules-old-absdata', 'update'), ('csv-old', 'migrate', 'other-filesystem'), ('csv-old-empty-key', 'migrate'), ('csv-old-altsettings', 'migrate'),
-         ('csv-old-commented-key', 'init'), ('rules-old-symlink-data', 'update'), ('csv-old-oddname', 'migrate')]
+         ('csv-old-commented-key', 'init'), ('rules-old-symlink-data', 'update'), ('csv-old-oddname', 'migrate'), ('csv-old-manybaks', 'migrate')]
 OTHER_FS = '/dev/shm'        # a file system other than the one holding the system temp directory (if this machine has one)
 
 
@@ -104,6 +106,9 @@ def build(root, shape):
     if sp.get('bak'):
         with open(os.path.join(cfg, 'merchant_categories.csv.bak'), 'w') as f:
             f.write('Pattern,Merchant,Category,Subcategory\nOLD,Precious Old Backup,Old,Rules\n')
+    for i in range(sp.get('manybaks', 0)):
+        with open(os.path.join(cfg, 'merchant_categories.csv.bak' + ('.%d' % i if i else '')), 'w') as f:
+            f.write('Pattern,Merchant,Category,Subcategory\nOLD%d,Backup number %d,Old,Rules\n' % (i, i))
     if sp.get('stray'):
         with open(os.path.join(cfg, 'merchants.rules'), 'w') as f:
             f.write('# my own unreferenced rules\n[Mine]\nmatch: contains("MINE")\ncategory: Mine\n')
